@@ -219,3 +219,4 @@ def run(ctx) -> None:
     ctx.floor('R-PASSTHROUGH', k, 5)
     refusal(ctx)
     default_lower(ctx)
+    shared.argname_scope(ctx, ('forml.io._input', 'forml.runtime._agent', 'forml.runtime._pseudo', 'forml.project._component'), floor=2)
